@@ -49,6 +49,19 @@ macro_rules! h3 {
     };
 }
 
+// H3 in two halves (clone on a tree whose Clone shares pointers needs > 4 GB over all of H3)
+macro_rules! h3a {
+    ($($f:ident),+) => {
+        $($f(&[]); $f(&[0]); $f(&[0, 0]); $f(&[0, 1]); $f(&[0, 0, 0]);)+
+    };
+}
+
+macro_rules! h3b {
+    ($($f:ident),+) => {
+        $($f(&[0, 0, 1]); $f(&[0, 1, 0]); $f(&[0, 1, 1]); $f(&[0, 1, 2]);)+
+    };
+}
+
 // the 15 equality patterns of exactly 4 inserts, in three groups (one group per harness:
 // a single harness over all of them needs > 4.5 GB in CBMC)
 macro_rules! l4a {
@@ -413,7 +426,8 @@ harness!(t_index, h3, "reachable: all 9 histories of <= 3 inserts executed", bod
 harness!(t_contains, h3, "reachable: all 9 histories of <= 3 inserts executed", body_contains);
 harness!(t_len, h3, "reachable: all 9 histories of <= 3 inserts executed", body_len);
 harness!(t_clear, h3, "reachable: all 9 histories of <= 3 inserts executed", body_clear);
-harness!(t_clone, h3, "reachable: all 9 histories of <= 3 inserts executed", body_clone);
+harness!(t_clone_a, h3a, "reachable: the 5 histories [], [a], [a,a], [a,b], [a,a,a] executed", body_clone);
+harness!(t_clone_b, h3b, "reachable: the 4 histories [a,a,b], [a,b,a], [a,b,b], [a,b,c] executed", body_clone);
 harness!(t_clone_drop, h3, "reachable: all 9 histories of <= 3 inserts executed", body_clone_drop);
 harness!(t_clone_clear, h3, "reachable: all 9 histories of <= 3 inserts executed", body_clone_clear);
 harness!(t_iter, q3, "reachable: histories Q3 executed", body_iter);
